@@ -154,6 +154,7 @@ var c07AppRequested = map[string]string{
 }
 
 func runC07(c *Ctx) {
+	c01Normalise(c)
 	c.Clauses = []string{
 		"C07.a every emitted sequence outside the probe is baseline xterm vocabulary, application-requested, or dominated by the capability flag of its feature; NewImage selects kitty/sixel only under the matching protocol level, which is raised only by the matching reply",
 		"C07.b direct-colour SGR forms are reachable only with caps.rgb: on the !rgb path the parameters are replaced by asIndex().Params(), and asIndex never returns an RGB colour",
@@ -192,6 +193,10 @@ func runC07(c *Ctx) {
 			why, ok := passThrough[base]
 			if !ok {
 				why, ok = c07AppRequested[base]
+			}
+			if !ok && isWriterBufBytes(e.Fn.Pkg.TypesInfo, e.ArgExpr) {
+				// whichever function of the writer does it: the buffered frame is handed to the terminal
+				why, ok = "flush of the buffer", true
 			}
 			key := fmt.Sprintf("%s/pass-through %s", e.FnName, types.ExprString(e.ArgExpr))
 			if ok {
@@ -288,6 +293,14 @@ func c07ImageSelection(c *Ctx, info *types.Info) {
 		h := st.h
 		as := h.Node.(*ast.AssignStmt)
 		val := types.ExprString(as.Rhs[0])
+		// by value: the level may arrive through a constant of another name or a substituted parameter
+		if v, isC := constInt(info, as.Rhs[0]); isC {
+			for _, nm := range []string{"kitty", "sixelGraphics"} {
+				if fmt.Sprint(v) == constOfPkg(c, nm) {
+					val = nm
+				}
+			}
+		}
 		if val != "kitty" && val != "sixelGraphics" {
 			continue
 		}
@@ -802,6 +815,13 @@ func c07Chain(c *Ctx, info *types.Info, ems []*Emission) {
 								}
 							}
 						}
+						// a helper (function, method or local closure) that is handed the address of the flag
+						// and stores true through it
+						if call, ok := m.(*ast.CallExpr); ok {
+							for _, p := range c07FlagsSetThrough(c, sfi, call) {
+								flags = append(flags, p)
+							}
+						}
 						return true
 					})
 				}
@@ -877,6 +897,84 @@ func c07Chain(c *Ctx, info *types.Info, ems []*Emission) {
 			c.bad("C07.c", fmt.Sprintf("vaxis.(*Vaxis).handleSequence/%s posted", l.ev), hs.Decl.Pos(), "no reply posts %s: the capability can never be established", l.ev)
 		}
 	}
+}
+
+// c07FlagsSetThrough: the capability flags whose address is passed to a callee (declared function/method of the
+// package, or a local closure defined once) that assigns true through the corresponding pointer parameter.
+func c07FlagsSetThrough(c *Ctx, fi *FuncInfo, call *ast.CallExpr) []string {
+	info := fi.Pkg.TypesInfo
+	var params *ast.FieldList
+	var body *ast.BlockStmt
+	cinfo := info
+	if fn := calleeOf(info, call); fn != nil {
+		hf := c.P.FuncOfObj(fn)
+		if hf == nil || hf.Decl.Body == nil || hf.Pkg != fi.Pkg {
+			return nil
+		}
+		params, body = hf.Decl.Type.Params, hf.Decl.Body
+	} else if id, ok := unparen(call.Fun).(*ast.Ident); ok {
+		src := singleDefOf(info, info.ObjectOf(id))
+		lit, isLit := unparen(src).(*ast.FuncLit)
+		if src == nil || !isLit {
+			return nil
+		}
+		params, body = lit.Type.Params, lit.Body
+	} else {
+		return nil
+	}
+	if params == nil || call.Ellipsis.IsValid() {
+		return nil
+	}
+	var out []string
+	i := 0
+	for _, f := range params.List {
+		names := f.Names
+		if len(names) == 0 {
+			i++
+			continue
+		}
+		for _, nm := range names {
+			if i >= len(call.Args) {
+				return out
+			}
+			arg := unparen(call.Args[i])
+			i++
+			u, ok := arg.(*ast.UnaryExpr)
+			if !ok || u.Op != token.AND {
+				continue
+			}
+			path := canonPath(info, u.X)
+			if !strings.HasPrefix(path, "Vaxis.caps.") {
+				continue
+			}
+			pobj := cinfo.Defs[nm]
+			// the parameter is never reassigned, and some statement of the body is `*param = true`
+			reassigned, sets := false, false
+			ast.Inspect(body, func(n ast.Node) bool {
+				as, ok := n.(*ast.AssignStmt)
+				if !ok {
+					return true
+				}
+				for k, l := range as.Lhs {
+					if lid, ok := unparen(l).(*ast.Ident); ok && cinfo.ObjectOf(lid) == pobj {
+						reassigned = true
+					}
+					if st, ok := unparen(l).(*ast.StarExpr); ok && len(as.Lhs) == len(as.Rhs) {
+						if lid, ok := unparen(st.X).(*ast.Ident); ok && cinfo.ObjectOf(lid) == pobj {
+							if tv := cinfo.Types[as.Rhs[k]]; tv.Value != nil && tv.Value.String() == "true" {
+								sets = true
+							}
+						}
+					}
+				}
+				return true
+			})
+			if sets && !reassigned {
+				out = append(out, strings.TrimPrefix(path, "Vaxis.caps."))
+			}
+		}
+	}
+	return out
 }
 
 // c07HasKey: want is among the guard keys; a membership key x∈{a,b} matches whatever the order of the values.
@@ -1345,12 +1443,18 @@ func c07WidthDecision(c *Ctx, info *types.Info) {
 			}
 			var sel []string
 			if needInterp {
-				got, prob := c07InterpWidth(c, fi, sigma)
-				if prob != "" {
-					c.undecided("C07.g", fmt.Sprintf("%s/unicodeCore=%v explicitWidth=%v noZWJ=%v -> %s", fn.name, u, e, z, want), fi.Decl.Pos(), "the width method is passed through a variable and the function cannot be interpreted: %s", prob)
-					continue
+				// each call site by itself: the method argument and the conditions on it are evaluated under the
+				// capability assignment (a helper that chooses the method is interpreted with that assignment)
+				if got, ok := c07SitesUnder(c, fi, sigma); ok {
+					sel = got
+				} else {
+					got, prob := c07InterpWidth(c, fi, sigma)
+					if prob != "" {
+						c.undecided("C07.g", fmt.Sprintf("%s/unicodeCore=%v explicitWidth=%v noZWJ=%v -> %s", fn.name, u, e, z, want), fi.Decl.Pos(), "the width method is passed through a variable and the function cannot be interpreted: %s", prob)
+						continue
+					}
+					sel = got
 				}
-				sel = got
 			} else {
 				for _, s := range sites {
 					if holds, _ := s.g.reachableUnder(s.loc, sigma); holds {
@@ -1395,6 +1499,156 @@ func extraGuards(c *Ctx, fi *FuncInfo, d1 ast.Node, gk []string) []string {
 	return out
 }
 
+// c07ValueUnder: the integer value of e under the capability assignment sigma: a constant, a local defined once
+// by such a value, or the result of a helper of the package that depends on the capability flags only.
+func c07ValueUnder(c *Ctx, fi *FuncInfo, e ast.Expr, sigma map[string]bool, depth int) (int64, bool) {
+	info := fi.Pkg.TypesInfo
+	e = unparen(e)
+	if depth > 4 {
+		return 0, false
+	}
+	if v, ok := constInt(info, e); ok {
+		return v, true
+	}
+	switch t := e.(type) {
+	case *ast.Ident:
+		if src := singleDefOf(info, info.ObjectOf(t)); src != nil {
+			return c07ValueUnder(c, fi, src, sigma, depth+1)
+		}
+	case *ast.CallExpr:
+		if tv, ok := info.Types[t.Fun]; ok && tv.IsType() && len(t.Args) == 1 {
+			return c07ValueUnder(c, fi, t.Args[0], sigma, depth+1)
+		}
+		fn := calleeOf(info, t)
+		hf := c.P.FuncOfObj(fn)
+		if hf == nil || hf.Pkg != fi.Pkg || hf.Decl.Body == nil || hf == fi {
+			return 0, false
+		}
+		hinfo := hf.Pkg.TypesInfo
+		m := &Machine{info: hinfo, prog: c.P, fields: map[string]val{}, tracked: func(*types.Var) bool { return false }}
+		m.resolve = func(x ast.Expr) (val, bool) {
+			if v, ok := sigma[canonExpr(hinfo, x)]; ok {
+				return val{k: vBool, b: v}, true
+			}
+			return val{}, false
+		}
+		m.onCall = func(m *Machine, fn2 *types.Func, call *ast.CallExpr, args []val) (val, bool) {
+			if h2 := c.P.FuncOfObj(fn2); h2 != nil && h2.Pkg == fi.Pkg && h2.Decl.Body != nil && h2 != hf {
+				if sig, _ := fn2.Type().(*types.Signature); sig != nil && sig.Results().Len() == 1 {
+					ret := m.callDecl(h2.Decl, args)
+					if len(ret) == 1 {
+						return ret[0], true
+					}
+				}
+			}
+			return val{}, true
+		}
+		var args []val
+		for _, a := range t.Args {
+			if v, ok := c07ValueUnder(c, fi, a, sigma, depth+1); ok {
+				args = append(args, val{k: vInt, i: v})
+			} else {
+				args = append(args, val{})
+			}
+		}
+		ret := m.callDecl(hf.Decl, args)
+		if len(m.problems) == 0 && len(ret) == 1 && ret[0].k == vInt {
+			return ret[0].i, true
+		}
+	}
+	return 0, false
+}
+
+// c07SitesUnder: the width methods of the gwidth calls of fi that can be reached under sigma, each call site
+// judged by its own guards; comparisons of a computable value (the chosen method) are decided first.
+// ok=false: some site's method or guard cannot be evaluated this way.
+func c07SitesUnder(c *Ctx, fi *FuncInfo, sigma map[string]bool) ([]string, bool) {
+	info := fi.Pkg.TypesInfo
+	g := c.P.Graph(fi)
+	names := map[int64]string{}
+	for _, n := range []string{"wcwidth", "noZWJ", "unicodeStd"} {
+		if o, ok := fi.Pkg.Types.Scope().Lookup(n).(*types.Const); ok {
+			if v, ok2 := constToInt(types.TypeAndValue{Value: o.Val()}); ok2 {
+				names[v] = n
+			}
+		}
+	}
+	var out []string
+	for _, h := range g.Calls(func(fn *types.Func, _ *ast.CallExpr) bool { return fn != nil && fn.Name() == "gwidth" }) {
+		call := h.Node.(*ast.CallExpr)
+		if len(call.Args) != 2 {
+			return nil, false
+		}
+		mv, ok := c07ValueUnder(c, fi, call.Args[1], sigma, 0)
+		if !ok || names[mv] == "" {
+			return nil, false
+		}
+		// decide the comparisons in the site's guards whose operands are computable
+		s2 := map[string]bool{}
+		for k, v := range sigma {
+			s2[k] = v
+		}
+		for _, gd := range g.Guards(h.Loc) {
+			if gd.Cond == nil || gd.Cond.Expr == nil {
+				continue
+			}
+			exprs := []ast.Expr{gd.Cond.Expr}
+			if gd.Cond.Tag != nil {
+				// switch tag { case v: } — a comparison tag == v
+				a, okA := c07ValueUnder(c, fi, gd.Cond.Tag, sigma, 0)
+				b, okB := c07ValueUnder(c, fi, gd.Cond.Expr, sigma, 0)
+				if okA && okB {
+					if (a == b) != gd.Pol {
+						s2["⊥"] = true
+					}
+				}
+				continue
+			}
+			for _, x := range exprs {
+				ast.Inspect(x, func(n ast.Node) bool {
+					be, ok := n.(*ast.BinaryExpr)
+					if !ok {
+						return true
+					}
+					switch be.Op {
+					case token.EQL, token.NEQ, token.LSS, token.LEQ, token.GTR, token.GEQ:
+						a, okA := c07ValueUnder(c, fi, be.X, sigma, 0)
+						b, okB := c07ValueUnder(c, fi, be.Y, sigma, 0)
+						if okA && okB {
+							var r bool
+							switch be.Op {
+							case token.EQL:
+								r = a == b
+							case token.NEQ:
+								r = a != b
+							case token.LSS:
+								r = a < b
+							case token.LEQ:
+								r = a <= b
+							case token.GTR:
+								r = a > b
+							case token.GEQ:
+								r = a >= b
+							}
+							s2[canonExpr(info, be)] = r
+						}
+					}
+					return true
+				})
+			}
+		}
+		if s2["⊥"] {
+			continue
+		}
+		holds, known := g.reachableUnder(h.Loc, s2)
+		_ = known
+		if holds {
+			out = append(out, names[mv])
+		}
+	}
+	return out, true
+}
+
 // c07InterpWidth runs fi concretely with the capability flags of sigma and returns the method
 // constants passed to gwidth.
 func c07InterpWidth(c *Ctx, fi *FuncInfo, sigma map[string]bool) ([]string, string) {
@@ -1423,6 +1677,22 @@ func c07InterpWidth(c *Ctx, fi *FuncInfo, sigma map[string]bool) ([]string, stri
 				m.problem("gwidth called with a non-constant method")
 			}
 			return val{}, true
+		}
+		// a helper of the package that computes a value the decision may depend on (the width method, a
+		// capability predicate) is interpreted with the same capability assignment
+		if hf := c.P.FuncOfObj(fn); hf != nil && hf.Pkg == fi.Pkg && hf.Decl.Body != nil && hf != fi {
+			if sig, _ := fn.Type().(*types.Signature); sig != nil && sig.Results().Len() == 1 {
+				switch bt := sig.Results().At(0).Type().Underlying().(type) {
+				case *types.Basic:
+					if bt.Info()&(types.IsInteger|types.IsBoolean) != 0 {
+						ret := m.callDecl(hf.Decl, args)
+						if len(ret) == 1 {
+							return ret[0], true
+						}
+						return val{}, true
+					}
+				}
+			}
 		}
 		return val{}, true // other calls (logging) have no effect on the decision
 	}
